@@ -2,6 +2,8 @@ import CnlDriver.CS
 import CnlModel.Layered
 import CnlModel.ScaledFloat
 import CnlModel.Elastic
+import CnlModel.Wide
+import CnlSpec.Wide
 import CnlDriver.FloatIO
 /-! `C01`–`C04` tables: scaled_integer over built-in representations (operators, division,
 comparison, conversion). -/
@@ -125,9 +127,31 @@ def checkC02 (toks : List String) (res : String) : Option Verdict :=
     some { model := showRes showBool m, spec := if guard then some (res == "1") else none, branch := "ident", nontrivial := guard }
   | _ => none
 
+/-- storage width of `wide_integer<D, int>` -/
+def wideN (d : Nat) : Nat :=
+  match Wide.storage d i32 with
+  | .builtin t => t.bits
+  | .multi f => f.N
+
 /-- C03: comparisons agree with the order of the denoted values -/
 def checkC03 (toks : List String) (res : String) : Option Verdict :=
   match toks with
+  | ["wcmp", ops, dl, dr, l, r] => do
+    -- wide_integer<DL,int> OP wide_integer<DR,int>: the right operand is converted to the left
+    -- operand's type before the representations are compared
+    let op ← parseCmpOp ops; let dl ← dl.toNat?; let dr ← dr.toNat?; let l ← l.toInt?; let r ← r.toInt?
+    let nl := wideN dl
+    -- a single-word left operand (built-in storage) is converted into the right operand's type
+    -- instead, which loses nothing
+    let r' := match Wide.storage dl i32 with
+      | .builtin _ => r
+      | .multi _ => WideSpec.wrapTwos nl true r
+    let cmpI (a b : Int) : Bool := match op with
+      | .lt => decide (a < b) | .le => decide (a ≤ b) | .gt => decide (a > b) | .ge => decide (a ≥ b)
+      | .eq => decide (a = b) | .ne => decide (a ≠ b)
+    let cls := if r' != r then "C03.wide_mixed_width_comparison_narrows_rhs" else ""
+    some { model := showBool (cmpI l r'), spec := some (res == showBool (cmpI l r)), cls := cls,
+           branch := "wcmp/" ++ ops ++ (if wideN dr > nl then "/rhs-wider" else ""), nontrivial := true }
   | ["cmp", ops, dl, nl, dr, nr, l, r] => do
     -- elastic_integer comparison (digits and narrowest types instead of exponents)
     let op ← parseCmpOp ops; let dl ← dl.toNat?; let nl ← parseIntTy nl; let dr ← dr.toNat?; let nr ← parseIntTy nr
